@@ -360,9 +360,14 @@ def activate_domain_and_interventions(
     if isinstance(expression, Probability):
         if not isinstance(expression, PopulationProbability):
             raise TypeError
+        # under do(z) the intervened variables are constants: they leave the children and the conditions,
+        # and a term about nothing but intervened variables is one
+        children = set(expression.children) - interventions
+        if not children:
+            return One()
         return PopulationProbability(
             population=domain,
-            distribution=Distribution.safe(set(expression.children) - interventions),
+            distribution=Distribution.safe(children).given(set(expression.parents) - interventions),
         ).intervene(interventions)
     if isinstance(expression, Sum):
         # TODO need full integration test to trso() function that covers this branch
